@@ -71,13 +71,20 @@ struct Gen {
 
     Flow make_flow(int codec, int m) {
         Flow f; f.id = next_flow++; f.codec = codec; f.m = m;
+        bool pow2_dims = false;
         if (codec == C_RS8 || codec == C_RS2M) {
             uint32_t lim = codec == C_RS8 ? 255 : (1u << m) - 1;
             f.k = pick_k(lim - 1);
             if (prof == "C02" && rng.chance(0.3)) f.k = (uint32_t)rng.range(1, std::min<uint32_t>(lim - 1, 14));
+            if (rng.chance(0.03)) {
+                // dimensions whose products are powers of two (n*k = 256, k*E = 8192, ...): where a work buffer switches
+                // between stack and heap, or between two size classes
+                uint32_t a = (uint32_t)rng.range(0, 5), maxb = lim >= 255 ? 7 : 3;
+                if (a + 1 <= maxb) { uint32_t b = (uint32_t)rng.range(a + 1, maxb); f.k = 1u << a; f.r = (1u << b) - f.k; pow2_dims = true; }
+            }
             uint32_t maxr = lim - f.k;
             double u = rng.unit();
-            f.r = u < 0.5 ? (uint32_t)rng.range(1, std::min<uint32_t>(maxr, 6)) : u < 0.9 ? (uint32_t)rng.range(1, std::min<uint32_t>(maxr, f.k + 4)) : (uint32_t)rng.range(1, maxr);
+            if (!pow2_dims) f.r = u < 0.5 ? (uint32_t)rng.range(1, std::min<uint32_t>(maxr, 6)) : u < 0.9 ? (uint32_t)rng.range(1, std::min<uint32_t>(maxr, f.k + 4)) : (uint32_t)rng.range(1, maxr);
         } else if (codec == C_LDPC) {
             f.N1 = (uint32_t)rng.range(3, 10);
             if (prof == "C15" && rng.chance(0.6)) f.N1 = (uint32_t)(2 * rng.range(2, 5));
@@ -98,6 +105,7 @@ struct Gen {
             f.k = p.first; f.r = p.second;
         }
         f.E = pick_E(f.k, f.k + f.r);
+        if (pow2_dims && rng.chance(0.6)) { static const uint32_t prod[] = {4096, 8192, 16384, 1024}; uint32_t p = prod[rng.below(4)]; if (p / f.k >= 1 && (uint64_t)(f.k + f.r) * (p / f.k) <= 700000u) f.E = p / f.k; }
         f.payload = pick_payload(); f.plseed = rng.next() & 0xffffffffu;
         if (f.payload == "ident" && (uint64_t)f.E * 8 < f.k && f.k <= 4096) f.E = (f.k + 7) / 8;
         return f;
@@ -386,6 +394,31 @@ struct Gen {
     }
 
     // ---------------------------------------------------------------- one flow = one block, one sender, 1..3 receivers
+    // A very large LDPC block whose sessions are only configured (and, for the encoder, asked for their first repair
+    // symbols): the parity-check matrix of both roles is compared with the RFC 5170 model at the sizes where 16-bit
+    // counters, multi-block sparse matrices and long choice lists matter, at the cost of a few tenths of a second.
+    void matrix_only_flow(int64_t t0) {
+        Flow f; f.id = next_flow++; f.codec = C_LDPC; f.m = 0;
+        f.N1 = (uint32_t)rng.range(3, 10);
+        f.k = (uint32_t)rng.range(5000, 40000);
+        static const double rates[] = {0.5, 0.6, 2.0 / 3, 0.75, 0.8, 0.9};
+        double rate = rates[rng.below(6)];
+        f.r = std::max<uint32_t>(f.N1, (uint32_t)std::llround(f.k * (1 - rate) / rate));
+        if (f.k + f.r > 50000) f.r = 50000 - f.k;
+        if (f.r < f.N1) f.r = f.N1;
+        f.pseed = (uint32_t)rng.range(1, 2147483646LL); f.E = 1 + (uint32_t)rng.below(4); f.payload = "rand"; f.plseed = rng.next() & 0xffffffffu;
+        plan.flows.push_back(f);
+        int enc = add_session(f.id, C_LDPC, 0, R_ENC, "stream", "none", "flow", "real");
+        emit(t0, enc, "CREATE"); emit(t0 + 5, enc, "SETP"); emit(t0 + 8, enc, "CTRL");
+        for (uint32_t j = 0; j < 3 && j < f.r; j++) emit(t0 + 10 + j, enc, "BUILD", f.k + j, "own");
+        emit(t0 + 40, enc, "RELEASE");
+        int dec = add_session(f.id, C_LDPC, 0, R_DEC, "stream", "none", "flow", "ref");
+        emit(t0 + 50, dec, "CREATE"); emit(t0 + 55, dec, "SETP");
+        for (uint32_t j = 0; j < 5; j++) emit(t0 + 60 + j, dec, "DELIVER", (int64_t)rng.below(f.k + f.r));
+        emit(t0 + 90, dec, "RELEASE");
+        cnt("matrix_only_big_flows");
+    }
+
     Flow last_flow; bool have_last = false;
     void flow(int64_t t0, const Swarm &sw, bool sibling = false) {
         int codec, m; pick_codec(codec, m);
@@ -488,6 +521,7 @@ struct Gen {
         if (prof == "C12") nfl = (int)rng.range(2, 5);
         if (prof == "C05") nfl = (int)rng.range(2, 4);
         int64_t t0 = 0;
+        if ((prof == "C05" || prof == "C06" || prof == "C07" || prof == "C08" || prof == "C12") && rng.chance(thorough ? 0.02 : 0.006)) { matrix_only_flow(t0); t0 += 200; }
         for (int i = 0; i < nfl; i++) {
             flow(t0, sw, i > 0 && rng.chance(prof == "C12" || prof == "C06" || prof == "C07" ? 0.5 : 0.3));
             // flows overlap in time (one thread, interleaved calls) or follow each other
